@@ -413,9 +413,12 @@ def run(prog, ctx, strict=False):
     try:
         for uri, f in prog["files"].items():
             rt.info[uri] = {"imports": {}}
-            for nsuri, names in f.get("nsimport") or []:
+            for ent in f.get("nsimport") or []:
+                nsuri, names = ent[0], ent[1]
+                owner = ent[2] if len(ent) > 2 else nsuri
                 for n in [x.strip() for x in names.split(",")]:
-                    rt.info[uri]["imports"][n] = nsuri
+                    if n != "*":
+                        rt.info[uri]["imports"][n] = owner
         for uri, f in prog["files"].items():
             src = translate_file(uri, f)
             g = {"__rt": rt, "__str": str, "__NameError": NameError, "UNDEFINED": rt.UNDEFINED, "STOP_RENDERING": "", "__name__": "ref_" + uri}
